@@ -89,7 +89,13 @@ def tok_of_val(v):
     return '?' + repr(v).replace(' ', '_')
 
 
+class XAttr(Exception):
+    pass
+
+
 def exn_class(e):
+    if isinstance(e, XAttr):
+        return 'attr'
     if isinstance(e, AssertionError):
         return 'assert'
     if isinstance(e, KeyError):
@@ -157,6 +163,10 @@ class World:
         self.events = []
         self.raw_events = []  # (name, args) for the shadow listener of C19
         sdn.namespace_manager.default = 'DEFAULT'
+        import spydrnet.uniquify as _u, spydrnet.flatten as _f
+        _u.MOD_NAME_UID = 0
+        _f.mod_name_uid = 0
+        _f.unique_number = 0
         CURRENT[0] = self
         self.listener = _Log(self) if listen else None
 
@@ -307,6 +317,18 @@ class World:
             self.obj(t[1]).direction = [sdn.UNDEFINED, sdn.INOUT, sdn.IN, sdn.OUT][int(t[2])]
         elif o == 'policy':
             sdn.namespace_manager.default = 'EDIF' if t[1] == '1' else 'DEFAULT'
+        elif o in ('clone', 'uniquify', 'flatten'):
+            try:
+                if o == 'clone':
+                    self.obj(t[1]).clone()
+                elif o == 'uniquify':
+                    from spydrnet.uniquify import uniquify as _uniquify
+                    _uniquify(self.obj(t[1]))
+                else:
+                    from spydrnet.flatten import flatten as _flatten
+                    _flatten(self.obj(t[1]))
+            except (AttributeError, TypeError) as e:
+                raise XAttr(str(e))
         else:
             raise NotImplementedError(o)
 
